@@ -28,3 +28,10 @@ Theorem C08_nothing_applied_no_trace : forall d author ts edits orc,
   let '(d', ap, _, _, _) := apply_edits d author ts edits orc in ap = 0 -> ARel (normalize_doc d) d'.
 Proof. exact engine_no_trace. Qed.
 Print Assumptions C08_nothing_applied_no_trace.
+
+(* the batch the correspondence check runs (apply_edits_x: it also reports how many deletions / modifications resolved to runs of
+   several paragraphs, the region of finding D30) IS the batch the theorems speak about *)
+Theorem C08_instrumented_batch_is_the_batch : forall d author ts edits orc,
+  fst (apply_edits_x d author ts edits orc) = apply_edits d author ts edits orc.
+Proof. exact apply_edits_x_fst. Qed.
+Print Assumptions C08_instrumented_batch_is_the_batch.
